@@ -276,61 +276,61 @@ package thrift
 // ---- buffer readers (no precondition: every byte string is a legal input) ----
 
 //@ func BinaryProtocol.ReadBool
-//@   props C01, C03, C17
+//@   props C01, C03, C13, C17
 //@   ensures len(buf) < 1 ==> err == errReadBool && l == 0 && !v
 //@   ensures len(buf) >= 1 ==> err == nil && l == 1 && (v <==> buf[0] == 1)
 
 //@ func BinaryProtocol.ReadByte
-//@   props C01, C03, C17
+//@   props C01, C03, C13, C17
 //@   ensures len(buf) < 1 ==> err == errReadByte && l == 0 && v == 0
 //@   ensures len(buf) >= 1 ==> err == nil && l == 1 && v == int8(buf[0])
 
 //@ func BinaryProtocol.ReadI16
-//@   props C01, C03, C17
+//@   props C01, C03, C13, C17
 //@   ensures len(buf) < 2 ==> err == errReadI16 && l == 0 && v == 0
 //@   ensures len(buf) >= 2 ==> err == nil && l == 2 && v == int16(vs.BE16(buf, 0))
 
 //@ func BinaryProtocol.ReadI32
-//@   props C01, C03, C17
+//@   props C01, C03, C13, C17
 //@   ensures len(buf) < 4 ==> err == errReadI32 && l == 0 && v == 0
 //@   ensures len(buf) >= 4 ==> err == nil && l == 4 && v == int32(vs.BE32(buf, 0))
 
 //@ func BinaryProtocol.ReadI64
-//@   props C01, C03, C17
+//@   props C01, C03, C13, C17
 //@   ensures len(buf) < 8 ==> err == errReadI64 && l == 0 && v == 0
 //@   ensures len(buf) >= 8 ==> err == nil && l == 8 && v == int64(vs.BE64(buf, 0))
 
 //@ func BinaryProtocol.ReadDouble
-//@   props C01, C03, C17
+//@   props C01, C03, C13, C17
 //@   ensures len(buf) < 8 ==> err == errReadDouble && l == 0
 //@   ensures len(buf) >= 8 ==> err == nil && l == 8 && math.Float64bits(v) == vs.BE64(buf, 0)
 
 //@ func BinaryProtocol.ReadFieldBegin
-//@   props C01, C03, C17
+//@   props C01, C03, C13, C17
 //@   ensures len(buf) < 1 ==> err == errReadField && l == 0
 //@   ensures len(buf) >= 1 && buf[0] == 0 ==> err == nil && l == 1 && typeID == 0 && id == 0
 //@   ensures len(buf) >= 1 && buf[0] != 0 && len(buf) < 3 ==> err == errReadField && l == 0
 //@   ensures len(buf) >= 3 && buf[0] != 0 ==> err == nil && l == 3 && typeID == int8(buf[0]) && id == int16(vs.BE16(buf, 1))
 
 //@ func BinaryProtocol.ReadMapBegin
-//@   props C01, C03, C17
+//@   props C01, C03, C13, C17
 //@   ensures len(buf) < 6 ==> err == errReadMap && l == 0
 //@   ensures len(buf) >= 6 ==> err == nil && l == 6 && kt == int8(buf[0]) && vt == int8(buf[1]) && size == int(vs.BE32(buf, 2))
 
 //@ func BinaryProtocol.ReadListBegin
-//@   props C01, C03, C17
+//@   props C01, C03, C13, C17
 //@   ensures len(buf) < 5 ==> err == errReadList && l == 0
 //@   ensures len(buf) >= 5 ==> err == nil && l == 5 && et == int8(buf[0]) && size == int(vs.BE32(buf, 1))
 
 //@ func BinaryProtocol.ReadSetBegin
-//@   props C01, C03, C17
+//@   props C01, C03, C13, C17
 //@   ensures len(buf) < 5 ==> err == errReadSet && l == 0
 //@   ensures len(buf) >= 5 ==> err == nil && l == 5 && et == int8(buf[0]) && size == int(vs.BE32(buf, 1))
 
 // ---- variable-length readers ----
 
 //@ func BinaryProtocol.ReadBinary
-//@   props C01, C03, C16, C17
+//@   props C01, C03, C13, C16, C17
 //@   let sz = int(int32(vs.BE32(buf, 0)))
 //@   ensures len(buf) < 4 ==> err == errReadBin && l == 0 && isnil(b)
 //@   ensures len(buf) >= 4 && sz < 0 ==> err == errNegativeSize && l == 0 && isnil(b)
@@ -339,7 +339,7 @@ package thrift
 //@   ensures[C16] err == nil ==> fresh(b)
 
 //@ func BinaryProtocol.ReadString
-//@   props C01, C03, C16, C17
+//@   props C01, C03, C13, C16, C17
 //@   let sz = int(int32(vs.BE32(buf, 0)))
 //@   ensures len(buf) < 4 ==> err == errReadStr && l == 0 && len(s) == 0
 //@   ensures len(buf) >= 4 && sz < 0 ==> err == errNegativeSize && l == 0 && len(s) == 0
